@@ -84,6 +84,7 @@ def replay_chunk(args):
     import pandas as pd
     out = {"jid": jid, "viol": [], "evals": 0, "drift": []}
     d = os.path.join(base, "p%d" % jid)
+    shutil.rmtree(d, ignore_errors=True)      # a re-run of this job (after a time-out) starts clean
     os.makedirs(d)
     try:
         for ci, case in enumerate(cases):
